@@ -116,7 +116,7 @@ MUTS = [
     "none", "none_high_s", "neg_s", "z+1", "z-1", "z+n", "z_random", "other_key",
     "r+1", "r-1", "s+1", "s-1", "r=0", "s=0", "r=n", "s=n", "r+n", "s+n", "r=2^256-1",
     "s=2^256-1", "random_rs", "rx_ge_n_valid", "rx_ge_n_unreduced", "r_neg", "s_neg",
-    "swap_rs", "neg_pub",
+    "swap_rs", "neg_pub", "uG_equals_vP", "uG_equals_minus_vP",
 ]
 
 
@@ -191,6 +191,23 @@ def build_tuple(case):
         s = s - N
     elif mut == "swap_rs":
         r, s = s, r
+    elif mut in ("uG_equals_vP", "uG_equals_minus_vP"):
+        # constructed: the two partial results of verification are the same point (the final addition
+        # is a doubling of two separately computed points) or opposite points (the sum is infinity)
+        t = case["k"]
+        if mut == "uG_equals_vP":
+            R = ec.mul(2 * t)
+            if R is None:
+                return None
+            r = R[0] % N
+            z = r * d % N
+            s = r * d * pow(t, -1, N) % N          # u = z/s = t, v = r/s = t/d, v*P = t*G
+        else:
+            r = case["aux"] % N
+            z = (-r * d) % N                       # u = z/s = -r*d/s, v*P = (r/s)*d*G = -u*G
+            s = case["aux2"] % N
+        if r == 0 or s == 0:
+            return None
     elif mut in ("rx_ge_n_valid", "rx_ge_n_unreduced"):
         # construct a signature whose nonce point has x in [n, p)
         x = N + case["j"]
@@ -227,8 +244,10 @@ def check_verify(case, ctx):
     ctx.nontrivial(mut != "none")
     want = ec.ecdsa_verify(pub, z, r, s)
     ctx.label("ref_valid" if want else "ref_invalid")
-    if mut in ("none", "none_high_s", "neg_s", "z+n", "rx_ge_n_valid"):
+    if mut in ("none", "none_high_s", "neg_s", "z+n", "rx_ge_n_valid", "uG_equals_vP"):
         assert want, mut
+    if mut == "uG_equals_minus_vP":
+        assert not want, mut
     point = S256Point(pub[0], pub[1])
     st_, got = attempt(point.verify, z, Signature(r, s))
     if want:
